@@ -105,8 +105,8 @@ def matrix_case(rec, rng, cid, scratch):
     sub = None if rng.random() < .5 else [
         str(c) for c in rng.choice(alln, size=int(rng.integers(1, len(alln))),
                                    replace=False)]
-    wt = [None, "all", "binary", "continuous", ["binary", "continuous"]][
-        int(rng.integers(5))]
+    wt = [None, "all", "binary", "continuous", ["binary", "continuous"],
+          ["continuous", "binary"]][int(rng.integers(6))]
     flags = dict(replace_inf=bool(rng.integers(2)),
                  impute_zero_rated_nan=bool(rng.integers(2)),
                  remove_nan=bool(rng.integers(2)))
